@@ -7,7 +7,8 @@ patch=$d/patch.diff; [ -f $d/patch.refreshed.diff ] && patch=$d/patch.refreshed.
 cd $wt || exit 2
 git checkout -q --detach $(git -C /repo rev-parse HEAD) 2>/dev/null; git checkout -q -- . ; git clean -fdq
 cp $d/demo_test.go ./zz_demo_test.go
-name=$(grep -o 'func Test[A-Za-z0-9_]*' zz_demo_test.go | head -1 | sed 's/func //')
+name=$(grep -o 'func Test[A-Za-z0-9_]*' zz_demo_test.go | sed 's/func //' | paste -sd'|')
+name="($name)"
 RACE=""; grep -qi "race" $d/notes.md 2>/dev/null && grep -q "\-race" $d/notes.md && RACE="-race"
 timeout 300 go test $RACE -vet=off -count=1 -run "^$name\$" . > /tmp/confirm-clean.log 2>&1; clean=$?
 if ! git apply $patch; then echo "$d: PATCH DOES NOT APPLY"; rm -f zz_demo_test.go; exit 1; fi
